@@ -163,6 +163,7 @@ class _ChildStream:
         if self.closed:
             raise ValueError("I/O operation on closed file")
         p._resolve()
+        p._start_reading()
         w = p.world
         while True:
             now = w.clock.now
@@ -286,6 +287,7 @@ class SimPopen:
         self._orphan_escaped = False
         self._chunks, self._drip, self._kill_t = [], None, None
         self._inherited_done = False
+        self._reader_since = None  # virtual time at which the parent started to read the helper's pipes
         if shell or preexec_fn is not None:
             raise Unmodelled("Popen(shell=%r, preexec_fn=%r)" % (shell, preexec_fn))
         self._file_fds = {}  # stdio given as a real file (object or descriptor): name -> descriptor number
@@ -499,7 +501,7 @@ class SimPopen:
             return False
         if self._finish is None:
             return True  # program not even delivered yet (python - without input)
-        return self._finish > self.world.clock.now
+        return self._exit_time() > self.world.clock.now
 
     def _mark_exit(self):
         if self.returncode is None:
@@ -527,9 +529,38 @@ class SimPopen:
                 except OSError:
                     pass
 
+    PIPE_CAPACITY = 65536
+
+    def _backpressured(self):
+        """the helper has more to write into a pipe than the pipe holds and nobody reads it: it cannot finish"""
+        if self._reader_since is not None or self._eff is None or self._finish == INF:
+            return False
+        for name, which in (("_stdout_arg", "out"), ("_stderr_arg", "err")):
+            arg = getattr(self, name)
+            if isinstance(arg, int) and arg == PIPE and len(self._avail(which, INF)) > self.PIPE_CAPACITY:
+                return True
+        return False
+
+    def _exit_time(self):
+        """virtual time at which the helper ends by itself"""
+        if self._backpressured():
+            return INF  # blocked in write(): the classic wait()-before-read deadlock
+        if self._reader_since is not None and self._finish != INF and self._big_output():
+            return max(self._finish, self._reader_since)
+        return self._finish
+
+    def _big_output(self):
+        return any(isinstance(getattr(self, n), int) and getattr(self, n) == PIPE and len(self._avail(wh, INF)) > self.PIPE_CAPACITY
+                   for n, wh in (("_stdout_arg", "out"), ("_stderr_arg", "err")))
+
     def _proc_end(self):
         """virtual time at which the helper process itself is gone"""
-        return self._kill_t if self._killed else self._finish
+        return self._kill_t if self._killed else self._exit_time()
+
+    def _start_reading(self):
+        if self._reader_since is None:
+            self._reader_since = self.world.clock.now
+            self.world.sched.notify(self)
 
     def _open_pipes(self):
         return [st for st in (self.stdout, self.stderr) if st is not None and not st.closed]
@@ -555,7 +586,7 @@ class SimPopen:
             if self._proc_end() != INF:
                 raise SimHang("blocking read without timeout on the pipes of a helper whose descendant keeps them open forever")
             raise SimHang("blocking wait without timeout on a helper that never finishes")
-        if self.returncode is None and not self._killed and self._finish <= w.clock.now:
+        if self.returncode is None and not self._killed and self._exit_time() <= w.clock.now:
             self._mark_exit()
         return reached
 
@@ -566,6 +597,8 @@ class SimPopen:
             if self._stdin_arg != PIPE:
                 raise Unmodelled("communicate(input=...) without stdin=PIPE")
             self.stdin.write(input)
+        self._resolve()
+        self._start_reading()
         if not self._reap_by_waiting(timeout, pipes=True):
             w.event("helper", self._req, self._idx, "timeout", float(timeout))
             w.probe("helper-timeout")
@@ -599,7 +632,7 @@ class SimPopen:
         w = self.world
         w.clock.advance(0.001)  # a poll costs a millisecond: busy-poll loops make progress
         self._resolve()
-        if self.returncode is None and not self._killed and self._finish <= w.clock.now:
+        if self.returncode is None and not self._killed and self._exit_time() <= w.clock.now:
             self._mark_exit()
         return self.returncode
 
@@ -608,7 +641,7 @@ class SimPopen:
         self._resolve()
         if self.returncode is not None or self._killed:
             return
-        if self._finish <= w.clock.now:
+        if self._exit_time() <= w.clock.now:
             self._mark_exit()
             return
         if sig in (signal.SIGKILL, signal.SIGTERM, signal.SIGINT, signal.SIGHUP, signal.SIGQUIT):
